@@ -20,7 +20,7 @@ ASSUMPTIONS = ['right-hand sides are passed to rules as copies unless the histor
 
 
 def plan(tier, seed):
-    return dict(n=3000 if tier == 'quick' else 120000, budget_s=70 if tier == 'quick' else 600, case_timeout=60)
+    return dict(n=6000 if tier == 'quick' else 120000, budget_s=70 if tier == 'quick' else 600, case_timeout=60)
 
 
 class Driver:
